@@ -619,6 +619,10 @@ def cumprod(x, axis=None, out=None, out_like=None, sizing='optimal', method='raw
         n_bits = x.size * x.n_word + max(n_frac - x.n_frac, n_frac - x.size * x.n_frac, 0)
         precision_cast = (lambda m: np.array(m, dtype=object)) if (n_frac >= _n_word_max or n_bits >= 63) else (lambda m: m)
         pow_vals = n_frac - np.cumsum(np.ones_like(np.array(x)), axis=axis).astype(int)  * x.n_frac
+        if np.any(pow_vals < 0):
+            # partial products that lose fraction bits: handed over as exact rationals, the store rounds them (2**pow_val as an integer is 0)
+            conv_factors = np.array([Fraction(2)**int(pow_val) for pow_val in pow_vals.flatten()], dtype=object).reshape(pow_vals.shape)
+            return np.array(np.cumprod(np.array(x.val, dtype=object), **kwargs) * conv_factors, dtype=object)
         conv_factors = precision_cast(utils.int_array([2**pow_val for pow_val in precision_cast(pow_vals)]))
         return np.cumprod(precision_cast(x.val), **kwargs) * conv_factors
 
